@@ -775,7 +775,7 @@ func (e *Eff) effectsOf(fn *ssa.Function) (summary []Effect, direct []Effect, un
 			if via == "" {
 				direct = append(direct, ef)
 			}
-			if !r.Shared() {
+			if !r.Shared() && what != callsParam {
 				continue
 			}
 			k := r.key() + "|" + what + "|" + fmt.Sprint(in.Pos()) + "|" + via
@@ -881,6 +881,16 @@ func (e *Eff) callEffects(fn *ssa.Function, c ssa.CallInstruction, emit func([]R
 			return
 		}
 	}
+	if pa, isParam := com.Value.(*ssa.Parameter); isParam && !com.IsInvoke() && pa.Parent() == fn {
+		// calling a function received as a parameter: what that does is decided at the call
+		// sites of fn, where the argument is known (see the "()" case below)
+		for i, q := range fn.Params {
+			if q == pa {
+				emit([]Root{{Kind: RParam, Idx: i, Name: pa.Name(), Path: "()"}}, callsParam, c, "")
+			}
+		}
+		return
+	}
 	callees := e.P.Callees(c)
 	if len(callees) == 0 {
 		if !com.IsInvoke() {
@@ -913,6 +923,10 @@ func (e *Eff) callEffects(fn *ssa.Function, c ssa.CallInstruction, emit func([]R
 						continue
 					}
 					actual := args[ef.Root.Idx]
+					if ef.Root.Path == "()" && ef.What == callsParam {
+						e.applyFunctionValue(actual, ef, c, emit, via)
+						continue
+					}
 					emit(e.mapParamEffect(actual, ef.Root.Path, c), what, c, via)
 				case RFreeVar:
 					// effect on a variable captured by a closure: owned by whoever created the
@@ -1111,4 +1125,91 @@ func isCryptoRandReader(v ssa.Value) bool {
 	}
 	g, ok := ld.X.(*ssa.Global)
 	return ok && g.Pkg != nil && g.Pkg.Pkg.Path() == "crypto/rand" && g.Name() == "Reader"
+}
+
+// callsParam marks the higher-order effect "calls the function it was given as
+// parameter #i" (Root{RParam, i, "()"}).
+const callsParam = "calls its parameter"
+
+// IsHigherOrder reports whether ef is the "calls its parameter" marker (not a write).
+func (ef Effect) IsHigherOrder() bool { return ef.What == callsParam && ef.Root.Path == "()" }
+
+// applyFunctionValue resolves a "calls its parameter" effect at a call site c whose
+// corresponding argument is v: a closure made here contributes its own summary with
+// its captured variables re-rooted at this function's bindings; a named function its
+// summary; a parameter of the calling function passes the obligation on; anything
+// else falls back to the call graph's callees of the original dynamic call.
+func (e *Eff) applyFunctionValue(v ssa.Value, ef Effect, c ssa.CallInstruction, emit func([]Root, string, ssa.Instruction, string), via string) {
+	for {
+		if ct, ok := v.(*ssa.ChangeType); ok {
+			v = ct.X
+			continue
+		}
+		break
+	}
+	var target *ssa.Function
+	switch x := v.(type) {
+	case *ssa.MakeClosure:
+		target, _ = x.Fn.(*ssa.Function)
+	case *ssa.Function:
+		target = x
+	case *ssa.Parameter:
+		if x.Parent() == c.Parent() {
+			for i, q := range c.Parent().Params {
+				if q == x {
+					emit([]Root{{Kind: RParam, Idx: i, Name: x.Name(), Path: "()"}}, callsParam, c, "")
+				}
+			}
+			return
+		}
+	}
+	var targets []*ssa.Function
+	if target != nil {
+		targets = []*ssa.Function{target}
+	} else {
+		targets = e.P.Callees(ef.Instr.(ssa.CallInstruction))
+	}
+	for _, g := range targets {
+		if !e.P.InModule(g) || g.Blocks == nil {
+			continue
+		}
+		for _, ge := range e.Summary[g] {
+			what := ge.What
+			if !strings.Contains(what, " in ") {
+				what = ge.What + " in " + FuncName(ge.Instr.Parent()) + " at " + e.P.InstrPos(ge.Instr)
+			}
+			v2 := via
+			if v2 == "" {
+				v2 = FuncName(g)
+			} else {
+				v2 += " -> " + FuncName(g)
+			}
+			switch ge.Root.Kind {
+			case RFreeVar:
+				if roots, ok := e.rebindFreeVar(c.Parent(), ge.Root); ok && target != nil {
+					emit(roots, what, c, v2)
+				} else {
+					emit([]Root{ge.Root}, what, c, v2)
+				}
+			case RParam:
+				if ge.IsHigherOrder() {
+					continue
+				}
+				emit([]Root{Root{Kind: RUnknown, Name: "argument of a callback"}.with(ge.Root.Path)}, what, c, v2)
+			default:
+				emit([]Root{ge.Root}, what, c, v2)
+			}
+		}
+	}
+}
+
+// Writes returns the summary of fn without the higher-order markers.
+func (e *Eff) Writes(fn *ssa.Function) []Effect {
+	var out []Effect
+	for _, ef := range e.Summary[fn] {
+		if !ef.IsHigherOrder() {
+			out = append(out, ef)
+		}
+	}
+	return out
 }
